@@ -57,6 +57,25 @@ def main():
                 ts = lang.mutate(rng, ts)
         if ts:
             cases.append(mk_case(ts, rng))
+    # (5) every combination of two small literal bounds and their unit suffixes (none / s / ms / us) on a unary and a binary
+    # bounded operator: a unit written on one bound only applies to both, so [2ms:1] is ill-formed and [1:2ms] is not
+    nums = [0, 1, 2, 500]
+    units = ["", "s", "ms", "us"]
+    combos = [(a, ua, b, ub) for a in nums for ua in units for b in nums for ub in units]
+    if quick:
+        combos = rng.sample(combos, 120)
+    for a, ua, b, ub in combos:
+        iv = [lang.T("[")] + [lang.T("num", a, str(a))] + ([lang.T("unit", ua, ua)] if ua else []) + [lang.T(rng.choice([":", ","]))] + \
+             [lang.T("num", b, str(b))] + ([lang.T("unit", ub, ub)] if ub else []) + [lang.T("]")]
+        atom_x = [lang.T("id", "x", "x"), lang.T("cmp", "ge", ">="), lang.T("num", 1, "1")]
+        if rng.random() < 0.6:
+            kw_ = rng.choice([("alw", "always"), ("ev", "eventually"), ("once", "once"), ("hist", "historically")])
+            ts = [lang.T("id", "out", "out"), lang.T("="), lang.T(kw_[0], "", kw_[1])] + iv + [lang.T("(")] + atom_x + [lang.T(")")]
+        else:
+            kw_ = rng.choice([("until", "until"), ("since", "since")])
+            ts = [lang.T("id", "out", "out"), lang.T("="), lang.T("(")] + atom_x + [lang.T(")"), lang.T(kw_[0], "", kw_[1])] + iv + \
+                 [lang.T("("), lang.T("id", "y", "y"), lang.T("cmp", "ge", ">="), lang.T("num", 1, "1"), lang.T(")")]
+        cases.append(mk_case(ts, rng))
     # empty and blank texts
     for txt in ("", " ", ";", "\n"):
         c = mk_case([lang.T(";")] if txt.strip() == ";" else [], rng)
